@@ -27,6 +27,7 @@ type Analyzer struct {
 	calleeCache map[*ssa.Function][]*ssa.Function
 	shortIndex  map[string][]*ssa.Function
 	readsCache  map[*ssa.Function]map[string]bool
+	atomReadsMemo map[string]map[string]bool
 	anchors     *K
 	valsum     map[*ssa.Function]*Term
 	valsumBusy map[*ssa.Function]bool
